@@ -530,7 +530,9 @@ impl LruManager {
                 return Err(format!("key_map index {idx} out of range ({n} slots)"));
             };
             if entry.ekey != *key {
-                return Err(format!("slot {idx} holds a different key than key_map says"));
+                return Err(format!(
+                    "slot {idx} holds a different key than key_map says"
+                ));
             }
             if mapped[idx as usize] {
                 return Err(format!("slot {idx} mapped by two keys"));
